@@ -157,6 +157,8 @@ pub fn c04(args: &Args) -> Report {
             }
         }
         p.max_extra_tags = 2;
+        // every kind class and its boundaries (only 20000..=29999 may be missing from the id index)
+        p.kinds.extend_from_slice(&[19999, 20000, 29999, 30000, 30001, 39999, 40000, 65535, 9999, 10000]);
         let mut mix = Mix::base();
         mix.reopen = 6;
         mix.del_foreign = 0;
